@@ -1,10 +1,184 @@
 import Model.Common.Proto
-open Btc
+import Model.Common.Sha256
+import Model.Common.Ripemd160
+import Model.Common.Sha1
+import Model.Common.HashProto
+import Model.C08.Num
+import Model.C08.Parse
+import Model.C08.Core
+import Model.C08.Verify
+import Generated.Script
+open Btc Btc.Script
 
-/-- line protocol of property C08: see harness/c08.py -/
-def handle : List String → String
-  -- one line per generated module this driver serves, e.g.
-  -- | "gen" :: "VarInt" :: fn :: args => (Gen.VarInt.dispatch fn args).getD "bad-op"
+/-! line protocol of property C08: see harness/c08.py -/
+
+def renderErr (e : Core.ScriptError) : String :=
+  match e with
+  | .NEED_ORACLE q => s!"need {q}"
+  | e => "err " ++ ((reprStr e).splitOn ".").getLast!
+
+def hexList (l : List Bytes) : String :=
+  if l.isEmpty then "-" else ",".intercalate (l.map toHex)
+
+def parseHexList (s : String) : Option (List Bytes) :=
+  if s == "-" then some [] else (s.splitOn ",").mapM fromHex?
+
+def parseFlags (s : String) : Option Nat :=
+  if s == "-" then some 0 else
+  (s.splitOn ",").foldlM (fun acc n => (Core.FLAG_NAMES.lookup n).map (acc ||| ·)) 0
+
+def parseSigVersion : String → Option Core.SigVersion
+  | "base" => some .BASE | "v0" => some .WITNESS_V0 | "tapscript" => some .TAPSCRIPT | _ => none
+
+def svName : Core.SigVersion → String
+  | .BASE => "base" | .WITNESS_V0 => "v0" | .TAPROOT => "taproot" | .TAPSCRIPT => "tapscript"
+
+def hashes : Core.Hashes := { sha256 := Btc.sha256, ripemd160 := Btc.ripemd160, sha1 := Btc.sha1 }
+
+/-- oracle table token: `deny` (every check fails), or `ask` / `ask;k=v;k=v…` where a key is
+    `e:<sig>:<key>:<code>:<sv>` or `s:<sig>:<key>:<sv>:<codeseppos>` and a value is `1`, `0` or an error name;
+    an unknown query under `ask` aborts the evaluation with `need <key>` -/
+structure Oracle where
+  ask : Bool
+  table : List (String × String)
+
+def parseOracle (s : String) : Oracle :=
+  match s.splitOn ";" with
+  | "deny" :: _ => ⟨false, []⟩
+  | _ :: rest => ⟨true, rest.filterMap fun kv => match kv.splitOn "=" with | [k, v] => some (k, v) | _ => none⟩
+  | [] => ⟨false, []⟩
+
+def schnorrErr : String → Core.ScriptError
+  | "SCHNORR_SIG_SIZE" => .SCHNORR_SIG_SIZE
+  | "SCHNORR_SIG_HASHTYPE" => .SCHNORR_SIG_HASHTYPE
+  | _ => .SCHNORR_SIG
+
+def mkChecker (o : Oracle) : Core.Checker where
+  checkECDSA sig key code sv :=
+    let k := s!"e:{toHex sig}:{toHex key}:{toHex code}:{svName sv}"
+    match o.table.lookup k with
+    | some v => .ok (v == "1")
+    | none => if o.ask then .error (.NEED_ORACLE k) else .ok false
+  checkSchnorr sig key sv pos :=
+    let k := s!"s:{toHex sig}:{toHex key}:{svName sv}:{pos}"
+    match o.table.lookup k with
+    | some "1" => none
+    | some v => some (schnorrErr v)
+    | none => if o.ask then some (.NEED_ORACLE k) else some .SCHNORR_SIG
+
+def renderStack (r : Core.R (List Bytes)) (named : Bool) : String :=
+  match r with
+  | .ok st => "ok " ++ hexList st.reverse
+  | .error (.NEED_ORACLE q) => s!"need {q}"
+  | .error e => if named then renderErr e else "err script"
+
+def renderUnit (r : Core.R Unit) (named : Bool) : String :=
+  match r with
+  | .ok _ => "ok"
+  | .error (.NEED_ORACLE q) => s!"need {q}"
+  | .error e => if named then renderErr e else "err"
+
+def handleC08 : List String → String
+  | "gen" :: "Script" :: fn :: args => (Gen.Script.dispatch fn args).getD "bad-op"
+  -- T1
+  | ["num.encode", i] =>
+    match parseInt? i with
+    | some i => Py.renderBytes (encodeNum i)
+    | none => "bad-op"
+  | ["num.decode", hex] =>
+    match fromHex? hex with
+    | some b => s!"ok {decodeNum b}"
+    | none => "bad-op"
+  | ["num.tonum", hex, minimal, maxSize] =>
+    match fromHex? hex, maxSize.toNat? with
+    | some b, some m => Py.renderInt (toNum b (minimal == "1") m)
+    | _, _ => "bad-op"
+  | ["num.tobool", hex] =>
+    match fromHex? hex with
+    | some b => if toBool b then "ok True" else "ok False"
+    | none => "bad-op"
+  -- the same four questions asked of Core's transcription
+  | ["corenum.encode", i] =>
+    match parseInt? i with
+    | some i => if -(2:Int)^63 ≤ i ∧ i < 2^63 then s!"ok {toHex (Core.scriptNumSerialize i)}" else "err value"
+    | none => "bad-op"
+  | ["corenum.tonum", hex, minimal, maxSize] =>
+    match fromHex? hex, maxSize.toNat? with
+    | some b, some m =>
+      match Core.scriptNum b (minimal == "1") m with
+      | .ok x => s!"ok {x}"
+      | .error _ => "err value"
+    | _, _ => "bad-op"
+  | ["corenum.tobool", hex] =>
+    match fromHex? hex with
+    | some b => if Core.castToBool b then "ok True" else "ok False"
+    | none => "bad-op"
+  -- T2
+  | ["parse.spans", hex] =>
+    match fromHex? hex with
+    | some b =>
+      let sp := opCodeSpans b
+      let stop := match sp.getLast? with | some (_, _, e) => e | none => 0
+      "ok " ++ (if sp.isEmpty then "-" else ",".intercalate (sp.map fun (o, s, e) => s!"{o}:{s}:{e}"))
+        ++ s!" tail={b.length - stop}"
+    | none => "bad-op"
+  | ["parse.getop", hex] =>
+    -- Core's GetOp walk: same rendering as parse.spans
+    match fromHex? hex with
+    | some b =>
+      let p := parse b
+      let rec go (ops : List Op) (pos : Nat) : List String :=
+        match ops with
+        | [] => []
+        | o :: r => s!"{o.code}:{pos}:{pos + o.raw.length}" :: go r (pos + o.raw.length)
+      let sp := go p.1 0
+      "ok " ++ (if sp.isEmpty then "-" else ",".intercalate sp) ++ s!" tail={p.2.length}"
+    | none => "bad-op"
+  | ["parse.roundtrip", hex] =>
+    match fromHex? hex with
+    | some b => let p := parse b; s!"ok {toHex (serializeOps p.1 ++ p.2)}"
+    | none => "bad-op"
+  | ["fad", script, target] =>
+    match fromHex? script, fromHex? target with
+    | some s, some t => let r := Core.findAndDelete s t; s!"ok {toHex r.1} {r.2}"
+    | _, _ => "bad-op"
+  -- T3/T4: EvalScript / ExecuteWitnessScript.
+  --   eval|evalx|execwit|execwitx <sigversion> <flags> <script> <stack bottom-first> <locktime> <sequence> <version> <weight> <oracle>
+  -- T5: VerifyScript.
+  --   verify|verifyx <flags> <scriptSig> <scriptPubKey> <witness bottom-first> <locktime> <sequence> <version> <amount> <oracle>
+  | [op, a1, a2, a3, a4, a5, a6, a7, a8, a9] =>
+    if op == "eval" || op == "evalx" || op == "execwit" || op == "execwitx" then
+      match parseSigVersion a1, parseFlags a2, fromHex? a3, parseHexList a4,
+            a5.toNat?, a6.toNat?, a7.toNat?, parseInt? a8 with
+      | some sv, some fl, some sc, some st, some lt, some sq, some ver, some w =>
+        let cx : Core.Ctx := { flags := fl, sigversion := sv, hashes := hashes, checker := mkChecker (parseOracle a9),
+                               script := sc, txLockTime := lt, txSequence := sq, txVersion := ver }
+        if op == "eval" || op == "evalx" then renderStack (Core.evalWith cx st.reverse w) (op == "evalx")
+        else
+          let env : Core.VerifyEnv := { flags := fl, hashes := hashes, checker := cx.checker, taggedHash := Btc.taggedHash,
+                                        commitment := fun _ _ _ => .ok false, txLockTime := lt, txSequence := sq, txVersion := ver }
+          renderUnit (Core.executeWitnessScript env st.reverse sc sv w) (op == "execwitx")
+      | _, _, _, _, _, _, _, _ => "bad-op"
+    else if op == "verify" || op == "verifyx" then
+      match parseFlags a1, fromHex? a2, fromHex? a3, parseHexList a4, a5.toNat?, a6.toNat?, a7.toNat? with
+      | some fl, some ss, some pk, some wit, some lt, some sq, some ver =>
+        let o := parseOracle a9
+        let env : Core.VerifyEnv := { flags := fl, hashes := hashes, checker := mkChecker o,
+                                      taggedHash := Btc.taggedHash,
+                                      commitment := fun control program leafHash =>
+                                        let k := s!"c:{toHex control}:{toHex program}:{toHex leafHash}"
+                                        match o.table.lookup k with
+                                        | some v => .ok (v == "1")
+                                        | none => if o.ask then .error (.NEED_ORACLE k) else .ok false,
+                                      txLockTime := lt, txSequence := sq, txVersion := ver }
+        renderUnit (Core.verifyScript env ss pk wit) (op == "verifyx")
+      | _, _, _, _, _, _, _ => "bad-op"
+    else "bad-op"
   | _ => "bad-op"
+
+def handle (toks : List String) : String :=
+  match Btc.hashOp toks with
+  | some r => r
+  | none => handleC08 toks
 
 def main : IO Unit := runLoop handle
